@@ -356,6 +356,13 @@ inductive Mentions : Instr → Qubit → Prop
   | pulse {b f q} : q ∈ f.qubits → Mentions (.pulse b f) q
   | capture {b f q} : q ∈ f.qubits → Mentions (.capture b f) q
   | rawCapture {b f q} : q ∈ f.qubits → Mentions (.rawCapture b f) q
+  | setFrequency {f q} : q ∈ f.qubits → Mentions (.setFrequency f) q
+  | setPhase {f q} : q ∈ f.qubits → Mentions (.setPhase f) q
+  | setScale {f q} : q ∈ f.qubits → Mentions (.setScale f) q
+  | shiftFrequency {f q} : q ∈ f.qubits → Mentions (.shiftFrequency f) q
+  | shiftPhase {f q} : q ∈ f.qubits → Mentions (.shiftPhase f) q
+  | swapPhases1 {f1 f2 q} : q ∈ f1.qubits → Mentions (.swapPhases f1 f2) q
+  | swapPhases2 {f1 f2 q} : q ∈ f2.qubits → Mentions (.swapPhases f1 f2) q
   | defcalHead {qs body q} : q ∈ qs → Mentions (.defcal qs body) q
   | defcalBody {qs body j q} : j ∈ body → Mentions j q → Mentions (.defcal qs body) q
   | defcalMeasureHead {q body} : Mentions (.defcalMeasure q body) q
@@ -396,8 +403,22 @@ private theorem mem_getQubits : (i : Instr) → (q : Qubit) → (q ∈ getQubits
         cases h with
         | defcalMeasureHead => exact Or.inl rfl
         | defcalMeasureBody hj hm => exact Or.inr ⟨_, hj, hm⟩
-  | .setFrequency _, q | .setPhase _, q | .setScale _, q | .shiftFrequency _, q | .shiftPhase _, q
-  | .swapPhases _ _, q | .other, q => by
+  | .setFrequency f, q => by simp only [getQubits]; exact ⟨.setFrequency, fun h => by cases h; assumption⟩
+  | .setPhase f, q => by simp only [getQubits]; exact ⟨.setPhase, fun h => by cases h; assumption⟩
+  | .setScale f, q => by simp only [getQubits]; exact ⟨.setScale, fun h => by cases h; assumption⟩
+  | .shiftFrequency f, q => by simp only [getQubits]; exact ⟨.shiftFrequency, fun h => by cases h; assumption⟩
+  | .shiftPhase f, q => by simp only [getQubits]; exact ⟨.shiftPhase, fun h => by cases h; assumption⟩
+  | .swapPhases f1 f2, q => by
+      simp only [getQubits, List.mem_append]
+      constructor
+      · rintro (h | h)
+        · exact .swapPhases1 h
+        · exact .swapPhases2 h
+      · intro h
+        cases h with
+        | swapPhases1 h => exact Or.inl h
+        | swapPhases2 h => exact Or.inr h
+  | .other, q => by
       simp only [getQubits]; exact ⟨fun h => by simp at h, fun h => by cases h⟩
 private theorem mem_getQubitsAll : (is : List Instr) → (q : Qubit) →
     (q ∈ getQubitsAll is ↔ ∃ j, j ∈ is ∧ Mentions j q)
